@@ -200,3 +200,52 @@ pub fn install_logger() {
         log::set_max_level(log::LevelFilter::Trace);
     }
 }
+
+
+/// In-memory edits of a parsed signed block through the public fields of the value.
+/// Returns false when the value offers nothing to edit in the requested way.
+pub fn mem_edit(mb: &mut in_toto::models::Metablock, kind: &str) -> bool {
+    use in_toto::models::MetadataWrapper;
+    match (&mut mb.metadata, kind) {
+        (MetadataWrapper::Layout(l), "rekey_swap") => {
+            // the keys of two table entries change places (each entry keeps its identifier)
+            let mut ids: Vec<_> = l.keys.keys().cloned().collect();
+            ids.sort();
+            if ids.len() < 2 {
+                return false;
+            }
+            let a = l.keys[&ids[0]].clone();
+            let b = l.keys[&ids[1]].clone();
+            l.keys.insert(ids[0].clone(), b);
+            l.keys.insert(ids[1].clone(), a);
+            true
+        }
+        (MetadataWrapper::Layout(l), "rekey_alias") => {
+            // one more entry: the first key filed once more under a made-up identifier
+            let mut ids: Vec<_> = l.keys.keys().cloned().collect();
+            ids.sort();
+            if ids.is_empty() {
+                return false;
+            }
+            let k = l.keys[&ids[0]].clone();
+            let alias: in_toto::crypto::KeyId =
+                std::str::FromStr::from_str(&"ab".repeat(32)).unwrap();
+            l.keys.insert(alias, k);
+            true
+        }
+        (MetadataWrapper::Layout(l), "readme") => {
+            l.readme.push_str(" (edited in memory)");
+            true
+        }
+        (MetadataWrapper::Layout(l), "drop_step") => l.steps.pop().is_some(),
+        (MetadataWrapper::Layout(l), "expires") => {
+            l.expires += chrono::Duration::days(365);
+            true
+        }
+        (MetadataWrapper::Link(l), "readme") | (MetadataWrapper::Link(l), "name") => {
+            l.name.push('x');
+            true
+        }
+        _ => false,
+    }
+}
